@@ -89,12 +89,29 @@ var globalDisqualifyCache = &disqualifyCache{}
 type disqualifyCache struct {
 	sync.Mutex
 	children map[NamedIndex]*disqualifyCache
-	dq       map[*RepositoryPackage]string
+	entries  []disqualifyEntry
 }
 
-func (r *disqualifyCache) find(indexes []NamedIndex) map[*RepositoryPackage]string {
+// disqualifyEntry is the difference computed for one grouping of indexes by architecture.
+// Several groupings can share a trie node (the same indexes, grouped differently), and
+// the difference depends on the grouping, so a node keeps one entry per grouping.
+type disqualifyEntry struct {
+	byArch map[string][]NamedIndex
+	dq     map[*RepositoryPackage]string
+}
+
+func sameGrouping(a, b map[string][]NamedIndex) bool {
+	return maps.EqualFunc(a, b, func(x, y []NamedIndex) bool { return slices.Equal(x, y) })
+}
+
+func (r *disqualifyCache) find(indexes []NamedIndex, byArch map[string][]NamedIndex) map[*RepositoryPackage]string {
 	if len(indexes) == 0 {
-		return r.dq
+		for _, e := range r.entries {
+			if sameGrouping(e.byArch, byArch) {
+				return e.dq
+			}
+		}
+		return nil
 	}
 
 	if r.children == nil {
@@ -106,12 +123,16 @@ func (r *disqualifyCache) find(indexes []NamedIndex) map[*RepositoryPackage]stri
 		return nil
 	}
 
-	return child.find(indexes[1:])
+	return child.find(indexes[1:], byArch)
 }
 
-func (r *disqualifyCache) fill(indexes []NamedIndex, dq map[*RepositoryPackage]string) {
+func (r *disqualifyCache) fill(indexes []NamedIndex, byArch map[string][]NamedIndex, dq map[*RepositoryPackage]string) {
 	if len(indexes) == 0 {
-		r.dq = dq
+		grouping := make(map[string][]NamedIndex, len(byArch))
+		for arch, idx := range byArch {
+			grouping[arch] = slices.Clone(idx)
+		}
+		r.entries = append(r.entries, disqualifyEntry{byArch: grouping, dq: dq})
 		return
 	}
 
@@ -125,7 +146,7 @@ func (r *disqualifyCache) fill(indexes []NamedIndex, dq map[*RepositoryPackage]s
 		r.children[indexes[0]] = child
 	}
 
-	child.fill(indexes[1:], dq)
+	child.fill(indexes[1:], byArch, dq)
 }
 
 // It is expensive to compute the difference between every architecture.
@@ -138,12 +159,12 @@ func (r *disqualifyCache) Get(ctx context.Context, byArch map[string][]NamedInde
 	slices.SortFunc(indexes, func(a, b NamedIndex) int {
 		return strings.Compare(a.Name(), b.Name())
 	})
-	if dq := r.find(indexes); dq != nil {
+	if dq := r.find(indexes, byArch); dq != nil {
 		return maps.Clone(dq)
 	}
 
 	dq := disqualifyDifference(ctx, byArch)
-	r.fill(indexes, dq)
+	r.fill(indexes, byArch, dq)
 
 	return maps.Clone(dq)
 }
